@@ -779,15 +779,23 @@ def _nt(t: str) -> int:
 # ---------------------------------------------------------------------------------------------------------------------
 
 def load_energy_observation(path: str, column: str) -> dict:
-    """What a reader process sees: frame shape, column names, values (as hex, bit exact) and the single column."""
+    """What a reader process sees: frame shape, column names, values (as hex, bit exact) and the single column.
+    Conversions that fail are reported as part of the observation (the judge turns them into violations)."""
     from molgri.io import EnergyReader
     er = EnergyReader(path)
     df = er.load_energy()
-    single = er.load_single_energy_column(column)
-    return {"columns": [str(c) for c in df.columns], "shape": list(df.shape),
-            "values": [[float(x).hex() for x in row] for row in df.to_numpy(dtype=float)] if df.shape[0] else [],
-            "single": [float(x).hex() for x in np.asarray(single, dtype=float)],
-            "index": [int(i) for i in df.index] if df.shape[0] else []}
+    obs = {"columns": [str(c) for c in df.columns], "shape": list(df.shape), "index": [repr(i) for i in df.index],
+           "values": None, "single": None}
+    try:
+        obs["values"] = [[float(x).hex() for x in row] for row in df.to_numpy(dtype=float)] if df.shape[0] else []
+    except Exception as e:  # noqa: BLE001
+        obs["values_error"] = f"{type(e).__name__}: {e}"
+    try:
+        single = er.load_single_energy_column(column)
+        obs["single"] = [float(x).hex() for x in np.asarray(single, dtype=float)]
+    except Exception as e:  # noqa: BLE001
+        obs["single_error"] = f"{type(e).__name__}: {e}"
+    return obs
 
 
 GROMACS_TOKEN_STYLES = ("gmx", "gmx_e", "repr", "g17", "int", "mixed")
@@ -1034,6 +1042,10 @@ class PersistenceCheck(Check):
             raise Violation("energy-shape", f"{what}: frame shape {obs['shape']} for {len(rows)} data lines and "
                                             f"{len(exp_cols)} columns")
         exp = [[float(tok).hex() for tok in row] for row in rows]
+        if obs["index"] != [repr(i) for i in range(len(rows))]:
+            raise Violation("energy-row-order", f"{what}: row index {obs['index'][:4]}... is not 0..n-1 in file order")
+        if obs.get("values_error"):
+            raise Violation("energy-values", f"{what}: frame is not numeric: {obs['values_error']}")
         if obs["values"] != exp:
             for r, (a, b) in enumerate(zip(obs["values"], exp)):
                 if a != b:
@@ -1041,10 +1053,9 @@ class PersistenceCheck(Check):
                     raise Violation("energy-values", f"{what}: row {r} column {exp_cols[c]!r}: read "
                                                      f"{float.fromhex(a[c])!r}, file token {rows[r][c]!r}")
         ci = exp_cols.index(es["column"])
-        if obs["single"] != [row[ci] for row in exp]:
-            raise Violation("energy-single-column", f"{what}: single column {es['column']!r} differs from the frame")
-        if obs["index"] != list(range(len(rows))):
-            raise Violation("energy-row-order", f"{what}: row index {obs['index'][:5]}... is not 0..n-1")
+        if obs.get("single_error") or obs["single"] != [row[ci] for row in exp]:
+            raise Violation("energy-single-column", f"{what}: single column {es['column']!r} differs from the frame "
+                                                    f"({obs.get('single_error', 'values differ')})")
 
     def shrink_candidates(self, sc):
         import copy
